@@ -249,6 +249,14 @@ impl SecondaryStorage {
             ordered_pk_ids: ordered_pk_ids.to_vec(),
         };
 
+        // one DDL statement at a time; the name may have been taken since the statement was bound
+        let _ddl = self.ddl_lock.lock().await;
+        if (self.catalog.get_schema_by_id(schema_id))
+            .is_some_and(|s| s.get_table_by_name(table_name).is_some())
+        {
+            return Err(TracedStorageError::duplicated("table", table_name));
+        }
+
         // persist to manifest first
         self.version
             .commit_changes(vec![EpochOp::CreateTable(entry.clone())])
@@ -285,6 +293,7 @@ impl SecondaryStorage {
     }
 
     pub(super) async fn drop_table_inner(&self, table_id: TableRefId) -> StorageResult<()> {
+        let _ddl = self.ddl_lock.lock().await;
         let mut changeset = vec![];
 
         let entry = DropTableEntry { table_id };
